@@ -28,6 +28,10 @@ class Concrete(Material):
     https://web.archive.org/web/20221103120449/https://physics.nist.gov/cgi-bin/Star/compos.pl?matno=144
     """
 
+    def __init__(self):
+        Material.__init__(self)
+        self.refDens = 2.3000  # g/cm3, pseudoDensity() and component number densities scale from it
+
     def setDefaultMassFracs(self):
         self.setMassFrac("H", 0.010000)
         self.setMassFrac("C", 0.001000)
